@@ -28,6 +28,7 @@ var futBodies = []struct{ tag, src string }{
 	{"body:builtin-error", "(nth [] 3)"},
 	{"body:long-sleep", "(do (sleep 60) :slept)"},
 	{"body:catches-its-cancellation", "(try (do (sleep 60) :slept) (catch e :swallowed))"},
+	{"body:ignores-cancellation", "(do (hard-sleep! 400) :late)"},
 	{"body:loops-until-cancelled", "(do (def spin (fn [n] (if (< n 0) n (spin (+ n 1))))) (spin 0))"},
 }
 
@@ -122,6 +123,15 @@ func runC10(tier string, seed uint64, rep *Report) {
 			}
 			ops[0][0] = futOp{opc: 2, src: "(future-cancel f)"}
 			progs[0][0] = ThreadOp{Src: "(future-cancel f)"}
+			hasCancel = true
+		}
+		// a body that ignores cancellation: cancel it, then a reader with a short deadline must still get its timeout on time
+		if body.tag == "body:ignores-cancellation" && len(ops[0]) >= 2 {
+			ops[0][0] = futOp{opc: 2, src: "(future-cancel f)"}
+			progs[0][0] = ThreadOp{Src: "(future-cancel f)"}
+			d := time.Duration(2+r.Intn(6)) * time.Millisecond
+			ops[0][1] = futOp{opc: 0, arg: 1, src: "@f", timeout: d}
+			progs[0][1] = ThreadOp{Src: "@f", Ctx: func() (context.Context, context.CancelFunc) { return context.WithTimeout(context.Background(), d) }}
 			hasCancel = true
 		}
 		src := "(def f (future (do (trace! :run) " + body.src + ")))"
@@ -250,6 +260,11 @@ func runC10(tier string, seed uint64, rep *Report) {
 		for t := range all {
 			for k, c := range all[t] {
 				op := allOps[t][k]
+				// a deref blocks until the outcome is available OR THE CALLER'S CONTEXT ENDS
+				if op.opc == 0 && op.timeout > 0 && c.Took > op.timeout+200*time.Millisecond {
+					idx := rep.Add("F 0", "ok", "round "+fmt.Sprint(round), true)
+					rep.Violate(idx, fmt.Sprintf("a deref whose context ended after %v returned only after %v", op.timeout, c.Took), listing("\n"))
+				}
 				rc := rec{tid: t, opc: op.opc, arg: op.arg, inv: c.Inv - base, resp: c.Resp - base, text: fmt.Sprintf("%s => %s", op.src, describe(c))}
 				if c.Panic != nil {
 					idx := rep.Add("F 0", "ok", "round "+fmt.Sprint(round), true)
